@@ -628,6 +628,10 @@ def gen_case_b(rng, idx, n_ops, malformed=False):
             ops.append(("rec", s, rng.choice(own) if (own and rng.random() < 0.7) else rng.choice(REC_FIELDS), gen_vals(rng)))
         else:
             ops.append(("ev", rng.randrange(len(EVENT_CS)), gen_vals(rng)))
+    # a LogTracer init attempted in this process — which already has a logger (the recording one) — must fail and change
+    # nothing (seeded change C18-I: the builder published its max level before the install could fail)
+    if rng.random() < 0.35:
+        ops.insert(rng.randint(0, len(ops)), ("ltinit", rng.randint(0, 5)))
     return {"part": "b", "id": "b%03d" % idx, "logmax": logmax, "logger": logger, "coll": coll, "ops": ops}
 
 
@@ -656,6 +660,8 @@ def case_text_b(c):
             L.append("ins %d %s" % (o[1], o[2]))
         elif o[0] == "install":
             L.append("install " + o[1])
+        elif o[0] == "ltinit":
+            L.append("ltinit %d" % o[1])
         elif o[0] == "ev":
             L.append("ev %d %s" % (o[1], vals_text(o[2])))
         elif o[0] == "sp":
@@ -704,6 +710,8 @@ def parse_case_b(text, cid):
             c["ops"].append(("ins", int(t[1]), t[2]))
         elif t[0] in ("dangling", "uninstall", "hbs"):
             c["ops"].append((t[0],))
+        elif t[0] == "ltinit":
+            c["ops"].append(("ltinit", int(t[1])))
         elif t[0] == "install":
             c["ops"].append(("install", t[1]))
         elif t[0] == "ev":
@@ -857,6 +865,11 @@ def process_case_b(rep, c, impl, text, always, disagree, table_bad):
             phase = phase if phase != "before" else "dangling"
         elif kind == "hbs":
             pass
+        elif kind == "ltinit":
+            # the model's op list has no entry for it: [init_again_log_max] (Model.v) says a failed init leaves log's max level
+            # alone, so the configuration the following steps run under is unchanged; the two observations are compared with
+            # that function below (tie), and every later step is judged as before (oracle)
+            disagree.append(("ltinit", c["id"], i, c["logmax"], o[1], r.get("lt_err"), r.get("log_max")))
         elif kind == "install":
             if (o[1] == "scoped" and guard[thread]) or (o[1] == "global" and global_set):
                 want_skip = True
@@ -1248,6 +1261,8 @@ def run(ctx):
     ctx.log("part b: %d histories x 2 feature builds run" % len(cases_b))
     rep.tie("b:callsite-table-and-slot-tracking", not table_bad, "%d mismatches between driver tables and the harness" % len(table_bad), table_bad[:1] or None)
 
+    terms.append(("ltinit", "map (fun cur => map (fun w => init_again_log_max cur (Some w)) [None; Some Error; Some Warn; Some Info; Some Debug; Some Trace]) "
+                            "[None; Some Error; Some Warn; Some Info; Some Debug; Some Trace]"))
     # ---- model evaluation
     model = None
     try:
@@ -1369,6 +1384,15 @@ def run(ctx):
                             dis_b.append({"case": c["id"], "bin": b, "op": i, "what": "has_been_set() (%s)" % k_, "impl": r[k_], "model": flag})
                 if bool(m_installed) != bool(spec_exists):
                     dis_b.append({"case": c["id"], "bin": b, "what": "an install has returned (ghost)", "driver": spec_exists, "model": m_installed})
+        lt = [z for z in disagree_b if z and z[0] == "ltinit"]
+        for _, cid, i, logmax, lvl, err, after in lt:
+            n_b_cmp += 1
+            want = model["ltinit"][logmax][lvl]
+            want = 0 if want is None else 1 + LV.index(want[1] if isinstance(want, tuple) else want)
+            if err is not True or after != want:
+                dis_b.append({"case": cid, "op": i, "what": "LogTracer::builder().with_max_level(%d).init() in a process that has a logger (log max %d)" % (lvl, logmax),
+                              "impl": {"returned_err": err, "log_max_after": after}, "model": {"returned_err": True, "log_max_after": want}})
+        rep.count("b:failed-LogTracer-init ops", len(lt))
         rep.tie("correspondence:b(tracing->log)", not dis_b, "%d disagreements over %d steps" % (len(dis_b), n_b_cmp), dis_b[:1] or None)
         rep.traces_validated += n_b_cmp
     # ---- thorough: the same cases on release builds; observations must equal the debug ones (then the oracle and
